@@ -110,10 +110,13 @@ def validName (s : String) : Option Err :=
     then some .nameChar
   else none
 
-/-- name comparison of the spec tree: ASCII and Latin-1 upper-casing, identity on everything else. Limitation: with the
-    `unicode` feature the library folds all of Unicode (`char::to_uppercase`), the table is not available to the oracles;
-    the generators' names beyond Latin-1 differ by more than case, so the difference is not exercised. -/
-def treeCfg : TreeCfg := { upper := latin1Upper, validName := validName }
+/-- Name comparison of the spec tree: the library's rule is ASCII upper-casing without its `unicode` feature and
+    `char::to_uppercase` with it; the full table is not available here, `simpleUpper` covers the scripts the generators
+    use. Limitation: names that differ only by the case of a letter outside those ranges are treated as different. -/
+def treeCfgOf (unicode : Bool) : TreeCfg :=
+  { upper := if unicode then simpleUpper else asciiUpper, validName := validName }
+
+def treeCfg : TreeCfg := treeCfgOf true
 
 def parseRow (row : String) : Option (String × Bool × Nat) :=
   match row.splitOn " " with
@@ -158,6 +161,8 @@ structure Ctx where
   /-- the directory handle path the operation works from -/
   dh : Option (List String)
   accdate : Bool
+  unicode : Bool
+  upper : Char → List Char := fun c => [c]
 
 def dirOf (st : OState) (tok : String) : Option (List String) := (handleId tok).bind fun d => st.dirs[d]?
 def fileOf (st : OState) (tok : String) : Option FileSt := (handleId tok).bind fun f => st.files[f]?
@@ -194,7 +199,7 @@ def mkCtx (st : OState) (v : OpView) : Ctx :=
     | [] => none
   { op, args, rk := resKind v.io.res, ok := v.io.res.headD "" == "ok", g, primary, touched := primary ++ visited,
     writes := if op == "raw" then v.io.rawWrites else logWrites v.io.log,
-    fh, dh, accdate := (Util.kv v.cfgArgs "accdate") == some "1" }
+    fh, dh, accdate := (Util.kv v.cfgArgs "accdate") == some "1", unicode := (Util.kv v.cfgArgs "unicode") != some "0", upper := v.upper }
 
 /-! ## State update -/
 
@@ -415,9 +420,9 @@ def obsOf (st : OState) (t : TNode) (v : OpView) (c : Ctx) : Obs :=
     if c.op == "list" then
       let dp := c.dh.getD []
       let live (name : String) : Bool :=
-        st.files.fold (fun b _ f => b || asciiFold (showPath f.path) == asciiFold (showPath (dp ++ [name]))) false
+        st.files.fold (fun b _ f => b || simpleFold (showPath f.path) == simpleFold (showPath (dp ++ [name]))) false
       .okList ((v.io.rows.filterMap parseRow).map fun (n, d, sz) =>
-        if !d && live n then
+        if !d && (live n || st.treeStale) then
           match getAt treeCfg t (dp ++ [n]) with
           | some node => (n, d, node.size)
           | none => (n, d, sz)
@@ -441,7 +446,7 @@ def oC01 (st st' : OState) (v : OpView) (c : Ctx) : Option TNode × List String 
       else match treeOpOf st v c with
         | none => (t, [])
         | some op =>
-          match Spec.step treeCfg t op (obsOf st t v c) with
+          match Spec.step { upper := c.upper, validName := validName } t op (obsOf st t v c) with
           | .ok t' => (t', [])
           | .error m => (t, [s!"C01 tree-step {tag} {m}"])
     -- 2. the image against the spec tree (unchanged image and no claimed change: nothing to compare)
@@ -457,11 +462,11 @@ def oC01 (st st' : OState) (v : OpView) (c : Ctx) : Option TNode × List String 
         | none =>
           -- 3. contents of files without a live handle (and not the file this op flushes/drops)
           let live : Std.HashSet String :=
-            st'.files.fold (fun s _ f => s.insert (asciiFold (showPath f.path)))
-              (match c.fh with | some f => ({} : Std.HashSet String).insert (asciiFold (showPath f.path)) | none => {})
+            st'.files.fold (fun s _ f => s.insert (simpleFold (showPath f.path)))
+              (match c.fh with | some f => ({} : Std.HashSet String).insert (simpleFold (showPath f.path)) | none => {})
           let spec : Std.HashMap String ByteArray := (flatT t1).foldl (fun m (p, _, b) => m.insert p b) {}
           match (flatMeta root).find? fun (p, e, b) =>
-              !st.treeStale && !e.isDir && !live.contains (asciiFold p) && spec[p]? != some b with
+              !st.treeStale && !e.isDir && !live.contains (simpleFold p) && spec[p]? != some b with
           | some (p, _, b) =>
             [s!"C01 content-changed {tag} file '{p}' has no live handle but its content changed (now {b.size} bytes, was {(spec[p]?.map (·.size)).getD 0})"]
           | none => []
@@ -556,7 +561,10 @@ def oC05 (st : OState) (v : OpView) (c : Ctx) : List String :=
         -- a full fixed root directory is the other documented reason
         let rootFull := g.fatBits != 32 && c.primary.any (fun p => p.length ≤ 1) && rootFreeRun g v.before < 21
         -- a multi-cluster write may use up the last clusters before it fails: judge the state it left
-        if free == 0 || freeAfter == 0 || rootFull then []
+        -- create_dir needs up to two clusters at once (its own first cluster and one to grow the parent) and gives
+        -- the first back when the second cannot be had: with a single free cluster NotEnoughSpace is legitimate
+        let needsTwo := c.op == "create_dir" && free ≤ 1
+        if free == 0 || freeAfter == 0 || rootFull || needsTwo then []
         else [s!"C05 nospace-unsound op={c.op} free-before={free} free-after={freeAfter}"]
       else []
     let main :=
@@ -688,7 +696,7 @@ def oC11 (st : OState) (v : OpView) (c : Ctx) : List String :=
     let owners := ownerMap g pre
     let touched := c.touched.map showPath
     suspicious.filterMap fun (off, bs) =>
-      match allowedWriteWith g pre owners touched off bs.length with
+      match allowedWriteWith g pre owners touched off bs.length c.upper with
       | none => none
       | some m =>
         let (sig, rest) := splitClause m
@@ -788,7 +796,7 @@ def rowOfName (rows : List String) (name : String) : Option (List String) :=
   rows.findSome? fun r =>
     let t := r.splitOn " "
     match textOf (t.headD "-") with
-    | some n => if asciiFold n == asciiFold name then some t else none
+    | some n => if simpleFold n == simpleFold name then some t else none
     | none => none
 
 def checkExpect (rows : List String) (e : Expect) : List String :=
